@@ -41,6 +41,7 @@ pub fn cases(prop: &str, seed: u64, tier: &str) -> Vec<String> {
     let mut out = Vec::new();
     match prop {
         "C01" => {
+            big_cases(&mut out, &mut r, QuerySel { class: false, method: false, lines: true, params: false, all_lines: false, both_files: false }, if tier == "quick" { 2 } else { 12 }, false);
             let b = budget(tier, 120, 4000);
             for i in 0..b.mappings {
                 let m = gen_mapping(&mut r, &REP);
@@ -61,6 +62,7 @@ pub fn cases(prop: &str, seed: u64, tier: &str) -> Vec<String> {
             corpus_queries(&mut out, &mut r, QuerySel { class: false, method: false, lines: true, params: false, all_lines: false, both_files: false }, b.thorough);
         }
         "C02" => {
+            big_cases(&mut out, &mut r, QuerySel { class: true, method: true, lines: true, params: true, all_lines: false, both_files: false }, if tier == "quick" { 2 } else { 12 }, true);
             let b = budget(tier, 100, 3000);
             for i in 0..b.mappings {
                 let m = if i % 5 == 4 {
@@ -79,6 +81,7 @@ pub fn cases(prop: &str, seed: u64, tier: &str) -> Vec<String> {
             corpus_queries(&mut out, &mut r, QuerySel { class: true, method: true, lines: true, params: true, all_lines: false, both_files: false }, b.thorough);
         }
         "C03" => {
+            big_cases(&mut out, &mut r, QuerySel { class: false, method: false, lines: false, params: true, all_lines: false, both_files: false }, if tier == "quick" { 2 } else { 12 }, false);
             let b = budget(tier, 200, 6000);
             for _ in 0..b.mappings {
                 let m = gen_mapping(&mut r, &REP);
@@ -92,6 +95,7 @@ pub fn cases(prop: &str, seed: u64, tier: &str) -> Vec<String> {
             corpus_queries(&mut out, &mut r, QuerySel { class: false, method: false, lines: false, params: true, all_lines: false, both_files: false }, b.thorough);
         }
         "C04" => {
+            big_cases(&mut out, &mut r, QuerySel { class: true, method: true, lines: false, params: false, all_lines: false, both_files: false }, if tier == "quick" { 3 } else { 20 }, false);
             let b = budget(tier, 200, 6000);
             for i in 0..b.mappings {
                 let o = GenOpts { dom: Dom::Representable, max_classes: if i % 10 == 0 { 150 } else { 8 }, noise: true };
@@ -235,6 +239,7 @@ pub fn cases(prop: &str, seed: u64, tier: &str) -> Vec<String> {
             }
         }
         "C14" | "C09" => {
+            big_cases(&mut out, &mut r, QuerySel { class: false, method: false, lines: false, params: false, all_lines: false, both_files: false }, if tier == "quick" { 2 } else { 10 }, true);
             let b = budget(tier, 300, 6000);
             for i in 0..b.mappings {
                 let o = GenOpts { dom: Dom::Representable, max_classes: if i % 25 == 0 { 120 } else { 6 }, noise: true };
@@ -438,6 +443,18 @@ pub fn cases(prop: &str, seed: u64, tier: &str) -> Vec<String> {
         _ => {}
     }
     out
+}
+
+/// a few large mappings per run (class counts / group sizes around powers of two, long strings)
+fn big_cases(out: &mut Vec<String>, r: &mut Rng, q: QuerySel, n: usize, with_bytes: bool) {
+    for _ in 0..n {
+        let m = gen_big_mapping(r);
+        out.push(format!("M {}", hex(m.as_bytes())));
+        if with_bytes {
+            out.push("W".into());
+        }
+        emit_big_queries(out, m.as_bytes(), r, q);
+    }
 }
 
 /// is the mapping inside the representable domain of the cache (non-empty names and
